@@ -157,6 +157,16 @@ def _replay(beh):
                     fails.append(("requires_grad", "detach() left requires_grad on tensor #%d" % i))
                 if action == "requires_grad_" and b.is_floating_point() and not b.requires_grad:
                     fails.append(("requires_grad", "requires_grad_(True) did not reach floating tensor #%d" % i))
+        # ---- the flattened representation has exactly the leaves the specification lists for this term (kinds and dtypes, as a multiset:
+        #      floating leaves in the target dtype, index data int64, masks bool)
+        lab = {torch.float32: "f32", torch.float64: "f64", torch.int64: "i64", torch.bool: "bool"}
+        try:
+            got = sorted(lab.get(t.dtype, str(t.dtype)) for t in res.representation())
+        except RuntimeError:
+            got = None       # (operators without tensor arguments - Zero - cannot be flattened at all: a C01 / C02 finding)
+        want = sorted(beh["expect"]["leaf_dtypes"])
+        if got is not None and got != want:
+            fails.append(("representation", "representation() of the result holds tensors %s, the specification lists %s" % (got, want)))
         # ---- value
         msg, err = compare_tensor(beh["dense"], res.to_dense(), tgt, loose=10.0, check_dtype=True)
         if msg:
